@@ -95,11 +95,11 @@ def main():
             ))
         else:
             na.append(dict(property_id=pid, reason=NOT_APPLICABLE.get(pid, PENDING)))
-    hooks_commits = []
+    hooks_commits = subprocess.check_output(["git", "-C", "/repo", "log", "--format=%h", "--grep=^verif hook"]).decode().split()
     m = dict(
         version=1,
         setup_cmd="python3 -c \"import json,sys; print('verif setup ok')\" && verus --version >/dev/null",
-        hooks=dict(guard="rxrust_verif", enable="RUSTFLAGS='--cfg rxrust_verif' (no hook is needed by the engines so far)",
+        hooks=dict(guard="rxrust_verif", enable="RUSTFLAGS='--cfg rxrust_verif' (set by engine/krun.py for every Engine-K run; one named yield point in StatusFuture::poll)",
                    baseline_off_cmd="cd /repo && cargo test --workspace --no-fail-fast --offline",
                    source_commits=hooks_commits, add_only=True),
         engines=[dict(name="verus-extract", path="engine/", serves_properties=sorted(CLAIMS),
